@@ -1832,9 +1832,11 @@ class PGPKey(Armorable, ParentRef, PGPObject):
             yield self
 
         finally:
-            # clean up here by deleting the previously decrypted secret key material
+            # clean up here by deleting the previously decrypted secret key material - of the keys that are protected:
+            # the material of an unprotected (sub)key, e.g. one added inside the block, exists nowhere else
             for sk in itertools.chain([self], self.subkeys.values()):
-                sk._key.keymaterial.clear()
+                if sk.is_protected:
+                    sk._key.keymaterial.clear()
 
     def add_uid(self, uid, selfsign=True, **prefs):
         """
